@@ -1,6 +1,6 @@
 """What MANIFEST.json claims (kept apart from the check logic)."""
 TECHNIQUE = "Lean 4 proof over hand-written executable model + differential correspondence with the Go implementation"
-HOOK_COMMITS = ["6d567af", "1215bca", "9d3f334", "8c825b5"]
+HOOK_COMMITS = ["6d567af", "1215bca", "9d3f334", "8c825b5", "596eb99"]
 NOTES = ("See DESIGN.md. Every check: lake build of the property module + axiom audit, harness rebuilt from /repo working "
          "tree with -tags verif, corpus + generated cases judged by the compiled Lean driver (model output and monitor predicate).")
 DEFAULT_NA = "machinery under construction in this round (design in DESIGN.md §6); not yet claimed"
@@ -10,6 +10,8 @@ _TB = ("Trusted: Lean kernel + propext/Classical.choice/Quot.sound; hand-written
 ENGINES = [
     {"name": "conc", "path": "go/cmd/corr/conc.go", "serves_properties": ["C06"],
      "kind_free_text": "concurrency: goroutines on one shared WAF + WAF builders, built with -race; every outcome vs sequential outcome and vs the Lean model"},
+    {"name": "rxpf", "path": "go/cmd/corr/rxpf.go", "serves_properties": ["C11"],
+     "kind_free_text": "differential: @rx built with the prefilter on and off on CRS and generated patterns x inputs sampled from the pattern's language and perturbed; prefilter verdicts vs the Lean model computed from the rendered syntax tree"},
     {"name": "parse", "path": "go/cmd/corr/parse.go", "serves_properties": ["C16"],
      "kind_free_text": "differential + round trip: structured rule descriptions rendered in many equivalent layouts and near-miss texts, compiled by the real parser (rule dump hook) vs the Lean parser model, the description and the reference grammar"},
     {"name": "fault", "path": "tools/faults.py", "serves_properties": ["C20"],
@@ -103,6 +105,15 @@ CLAIMED = {
              "from an entry marked deleted (C06_memoize, C06_memoize_live). Tied to /repo by `conc` under the race detector.",
         note=_TB + "Partial: the Go memory model is outside Lean; races are shown by the race detector on the schedules that occur.",
         ref="6/C06", engine="conc"),
+    "C11": dict(
+        text="Lean 4 theorems over a model of rxprefilter.go on the regexp/syntax tree: (see Properties/C11.lean) the "
+             "substring and multi-needle matchers are exact, the minimum length and the extracted literals are necessary "
+             "conditions of a match under an over-approximating match relation, hence the prefilter never rejects an input "
+             "the regex matches and @rx with the prefilter on equals @rx with it off. Tied to /repo by `rxpf`: the real "
+             "operator on/off on CRS + generated patterns, prefilter verdicts vs the model.",
+        note=_TB + "Partial: regexp/syntax and the regexp engine are outside Lean; the theorems assume the engine matches "
+                   "only what the stated match relation allows.",
+        ref="6/C11", engine="rxpf"),
     "C16": dict(
         text="Lean 4 theorems over a model of the SecLang parser as written in Go: comment/blank lines may be inserted "
              "anywhere and indentation never matters (for every parser state incl. continuation and backtick blocks); a "
